@@ -353,3 +353,9 @@ def r9(ctx, R):
                 calls.append((fname, ast.unparse(c)))
     want = {('restriction_matrix_1d', 'next_neighbors_periodic(p, fine_grid, k)'), ('restriction_matrix_1d', 'next_neighbors(p, padded_f_grid, k)'), ('interpolation_matrix_1d', 'next_neighbors_periodic(p, coarse_grid, k)'), ('interpolation_matrix_1d', 'next_neighbors(p, padded_c_grid, k)')}
     R.check(set(calls) == want and len(calls) == 4, 'matrix builders :: k neighbours of the target point p in the SOURCE grid (padded when not periodic)', TH, sorted(want), sorted(calls))
+
+
+@rule('C11', 'C11.R10', 'the mass-matrix base transfer applies the FULL collocation restriction (every fine node, every row of Rcoll) to values, defects and an inherited tau, like the base class (clause-wise check shared with C10.R5)', floor=5)
+def r10(ctx, R):
+    from . import c10
+    c10.r5(ctx, R)
